@@ -635,17 +635,32 @@ impl<'input> Tokenizer<'input> {
             None => return self.eof_recover(Token::CharLiteral('\0')),
         };
 
-        match self.bump() {
-            Some((_, b'\'')) => {
-                let ch = self.chars.chars.as_str_suffix().restore_char(&[ch]);
-                Ok(pos::spanned2(
-                    start,
-                    self.next_loc(),
-                    Token::CharLiteral(ch),
-                ))
+        // The lexer steps through the input byte by byte: gather the continuation bytes of a
+        // multi-byte character so that the whole character is the literal
+        let mut buf = [ch, 0, 0, 0];
+        let mut len = 1;
+        while len < 4 {
+            match self.lookahead() {
+                Some((_, b)) if ch >= 0x80 && (b & 0xC0) == 0x80 => {
+                    self.bump();
+                    buf[len] = b;
+                    len += 1;
+                }
+                _ => break,
             }
+        }
+        let ch = str::from_utf8(&buf[..len])
+            .ok()
+            .and_then(|s| s.chars().next())
+            .unwrap_or('\u{FFFD}');
+
+        match self.bump() {
+            Some((_, b'\'')) => Ok(pos::spanned2(
+                start,
+                self.next_loc(),
+                Token::CharLiteral(ch),
+            )),
             Some((end, _)) => {
-                let ch = self.chars.chars.as_str_suffix().restore_char(&[ch]);
                 self.recover(start, end, UnterminatedCharLiteral, Token::CharLiteral(ch))
             } // UnexpectedEscapeCode?
             None => self.eof_recover(Token::CharLiteral('\0')),
